@@ -48,7 +48,7 @@ If the number of desired trees is > number of input trees:
 				if totaltrees < numtrees {
 					outtrees[totaltrees] = t.Tree
 				} else {
-					j := rand.Intn(totaltrees)
+					j := rand.Intn(totaltrees + 1)
 					if j < numtrees {
 						outtrees[j] = t.Tree
 					}
